@@ -114,11 +114,32 @@ def step (v : Variant) (line : String) : String :=
       | some (args, _) =>
         match parseIgnoreArgs args with
         | none => "F"
-        | some (ig, pn) =>
-          s!"S {ig.length}" ++ String.join (ig.map (fun x => " " ++ toHex x)) ++ s!" {pn.length}" ++
-            String.join (pn.map (fun x => " " ++ toHex x))
+        | some (ig, ff, pn) =>
+          let j (l : List Str) := s!"{l.length}" ++ String.join (l.map (fun x => " " ++ toHex x))
+          s!"S {j ig} {j ff} {j pn}"
       | none => "bad-op"
     | none => "bad-op"
+  | "clisel" :: cwd :: n :: rest =>
+    -- the whole selection of `cppcheck <args>` run in <cwd> on the tree given below <cwd>: `cliSelect`
+    match fromHex cwd, n.toNat? with
+    | some cwd, some n =>
+      match hexList n rest with
+      | some (args, ntop :: rest) =>
+        match ntop.toNat? with
+        | some ntop =>
+          match parseTrees (rest.length + 1) ntop rest with
+          | some (top, _) =>
+            let resolve (p : Str) : Option Tree :=
+              let p := if isAbsolute p then (if cwd.isPrefixOf p then p.drop cwd.length else ['/', '!']) else p
+              if p == ['/', '!'] then none
+              else findNode ((splitSlash p).filter (fun c => c != [] && c != dot)) (.dir [] top)
+            match cliSelect args cwd resolve with
+            | none => "F"
+            | some l => s!"S {l.length}" ++ String.join (l.map (fun x => " " ++ toHex x))
+          | none => "bad-tree"
+        | none => "bad-op"
+      | _ => "bad-op"
+    | _, _ => "bad-op"
   | ["uspec", m, u, path, cwd] =>
     match fromHex u, fromHex path, fromHex cwd with
     | some u, some path, some cwd => boolStr (userIgnoreSpecB (fm m) u path cwd)
@@ -157,7 +178,7 @@ def step (v : Variant) (line : String) : String :=
       let rp := rawPattern sy pat base
       let rx := rawPath sy path base
       let P := canonPattern sy pat base
-      s!"{boolStr (pathMatchSpecB sy (fm m) pat path base)} ok={boolStr (MatchOk v sy (fm m) pat path base)} pc={boolStr (CanonOk v rp.1 rp.2)} xc={boolStr (CanonOk v rx.1 rx.2)} pk={classLetters rp.1 rp.2} xk={classLetters rx.1 rx.2} so={boolStr (v.star || starOkR P.reverse)} ds={boolStr (dirSepOk sy (fm m) pat base)} P={toHex P} X={toHex (canonPath sy path base)}"
+      s!"{boolStr (pathMatchSpecB sy (fm m) pat path base)} ok={boolStr (MatchOk v sy (fm m) pat path base)} pc={boolStr (CanonOk v rp.1 rp.2)} xc={boolStr (CanonOk v rx.1 rx.2)} pk={classLetters rp.1 rp.2} xk={classLetters rx.1 rx.2} fp={boolStr (pat != path || FastPathOk sy pat base)} so={boolStr (v.star || starOkR P.reverse)} ds={boolStr (dirSepOk sy (fm m) pat base)} P={toHex P} X={toHex (canonPath sy path base)}"
     | _, _, _ => "bad-op"
   | ["canon", s, a, b] =>
     match hexN a, hexN b with
